@@ -172,6 +172,13 @@ impl<'a> ScriptGen<'a> {
         if rng.chance(self.remote_pm, 1000) && !self.contracts.is_empty() {
             steps.extend(self.remote_steps(rng, depth));
         }
+        // the very same sub-message twice in a row
+        if rng.chance(1, 12) {
+            if let Some(i) = steps.iter().rposition(|s| matches!(s, Step::Send(s) if matches!(s.msg, Msg::Bank { .. } | Msg::Other { .. }))) {
+                let dup = steps[i].clone();
+                steps.insert(i, dup);
+            }
+        }
         if rng.chance(self.fail_pm, 1000) {
             let at = rng.below(steps.len() as u64 + 1) as usize;
             steps.insert(at, Step::Fail { code: rng.below(100_000) as u32 });
